@@ -28,7 +28,7 @@ func runC13(c *Ctx) {
 	c.Rule("C13.O2", "E4", "in nextFrame the control-payload>125 and 64-bit-length<0 rejections dominate the acceptance point", 2)
 	c.Rule("C13.O3", "E4", "Parse: a failed nextFrame reaches the error return before any Malloc/Append/copy", 1)
 	c.Rule("C13.O4", "E4", "text handler behind CheckUtf8; close handler behind validCloseCode and CheckUtf8 on the >=2-byte edge; failing edges write a 1002 close and close; opcode 0 closes without delivery", 4)
-	c.Rule("C13.O5", "E8", "validCloseCode accepts {1000-1003,1007-1011,3000-4999}, rejects {0-999,1004-1006,1016-2999,>=5000} (1012-1015 unconstrained)", 1)
+	c.Rule("C13.O5", "E8", "validCloseCode accepts {1000-1003,1007-1011,3000-4999}, rejects {0-999,1004-1006,1015,1016-2999,>=5000} (1012-1014 unconstrained; 1015, like 1005 and 1006, must not appear in a Close frame)", 1)
 	c.Rule("C13.O6", "E3,E7e", "every WebSocket read path tests the error of Parse and fails the connection", 3)
 	c.Rule("C13.O8", "E5", "UTF-8 validity is decided on whole messages: the stateless CheckUtf8 is applied only in the message handler (text message, close reason), never to a single frame's payload (a fragment boundary may fall inside a code point)", 1)
 	c.Rule("C13.O10", "E4", "what Parse hands to the message, frame and control handlers belongs to the frame just parsed: every variable passed to handleMessage / handleDataFrame / handleProtocolMessage is assigned again (reset) on every way round the frame loop before it is passed again; a payload left over from the previous control frame is never answered twice", 3)
@@ -279,7 +279,7 @@ func runC13(c *Ctx) {
 					break
 				}
 				mustAccept := v >= 1000 && v <= 1003 || v >= 1007 && v <= 1011 || v >= 3000 && v <= 4999
-				mustReject := v <= 999 || v >= 1004 && v <= 1006 || v >= 1016 && v <= 2999 || v >= 5000
+				mustReject := v <= 999 || v >= 1004 && v <= 1006 || v == 1015 || v >= 1016 && v <= 2999 || v >= 5000
 				if mustAccept && !*got {
 					bad = fmt.Sprintf("close code %d is rejected but RFC 6455 §7.4 allows it", v)
 					break
